@@ -1,7 +1,7 @@
 #!/bin/sh
 # setup_cmd: build the whole framework from files on disk only (offline).
 set -u
-V=/verif
+V=$(cd "$(dirname "$0")" && pwd)
 cd $V
 export GOFLAGS=-mod=mod GOPROXY=off GOSUMDB=off GOTOOLCHAIN=local
 rc=0
